@@ -38,6 +38,13 @@ Theorem C17_history_issued : forall ks reg ids reg', run_styles ks reg = (ids, r
 Proof. exact run_styles_issued. Qed.
 Print Assumptions C17_history_issued.
 
+(* "registering the definition read back by GetStyle yields a style with that same definition": after any history,
+   for every id GetStyle knows, NewStyle of its definition returns that very id and leaves the table as it is *)
+Theorem C17_history_idem : forall ks ids reg' id k, run_styles ks init_reg = (ids, reg') -> get_style reg' id = Some k ->
+  new_style k reg' = Ok (id, reg').
+Proof. exact history_idem. Qed.
+Print Assumptions C17_history_idem.
+
 Example C17_dedup_ex : run_styles [7; 9; 7; 0; 9] init_reg = ([1; 2; 1; 0; 2], [0; 7; 9]).
 Proof. vm_compute. reflexivity. Qed.
 
